@@ -16,6 +16,16 @@ class SymUni(Universe): pass
 class SymFalsyVert(Vertex):
     def __bool__(self):
         return False
+class FalsyCallable:
+    """A callable user object whose truth value is False (e.g. an empty allow-list with __len__)."""
+    def __init__(self, answer):
+        self.answer = answer
+        self.calls = []
+    def __call__(self, *args):
+        self.calls.append(args)
+        return self.answer
+    def __len__(self):
+        return 0
 '''
 
 STRUCT = "edgegraph.structure"
